@@ -66,8 +66,18 @@ def generate(rng, tier, cls):
     if rng.chance(0.3):
         r['block_size'] = rng.choice([1, 13, 97])
 
-    return {'actors': [{'id': 'P1', 'kind': 'writer', 'file': 'f1',
-                        'main_encoding': main, 'ops': ops}, r],
+    r.update(gen.gen_stream_extras(rng))
+    wspec = {'id': 'P1', 'kind': 'writer', 'file': 'f1',
+             'main_encoding': main, 'ops': ops}
+
+    if rng.chance(0.1):
+        wspec['shadow'] = rng.below(50)
+
+    if rng.chance(0.08):
+        # codec names handed over as instances of a str subclass
+        wspec['subclassed'] = True
+
+    return {'actors': [wspec, r],
             'schedule': [], 'faults': [], 'codecs': codecs}
 
 
